@@ -1,8 +1,183 @@
 import GraafVerif.Driver.Common
-/-! Driver handlers for property C06 (ops the harness module `ops/c06.rs` emits). -/
-namespace GraafVerif.Driver.H06
-open GraafVerif GraafVerif.Driver
+import GraafVerif.Model.Dfs
+import GraafVerif.Spec.Dfs
+/-!
+Driver handlers for C06.
 
-def handlers : List (String × Handler) := []
+    dfs_iter <desc> <sources> [family]  =>  <Dfs items>
+    dfs_dist <desc> <sources> [family]  =>  <DfsDist items>                     items `[v depth]`
+    dfs_pred <desc> <sources> [family]  =>  <DfsPred items> <predecessors()>    items `[pred v]`, vector of `none | id`
+
+each output is a list or the atom `panic`.
+
+Verdict (per op, i.e. per iterator):
+* the property oracle (`Spec/Dfs.lean` + a naive closure-iteration reachability oracle) judges the
+  IMPLEMENTATION's output: the sequence must be a depth-first preorder with the prescribed
+  parents / depths, `predecessors()` its forest, and the yielded set the reachable set;
+* `KNOWN early-stop-on-stale-pop` only when (i) the implementation's output equals the model of
+  today's code, whose run ended at a stale pop, (ii) every step of what was yielded is valid
+  (and `predecessors()` is the forest of what was yielded), the ONLY defect being missing
+  reachable vertices, and (iii) the item sequence is a strict prefix of what the corrected
+  variant yields, of exactly the length at which the corrected variant pops its first stale
+  entry (`staleAt`);
+* any other rejection by the oracle is `PROPFAIL`; model disagreement alone is `MISMATCH`.
+-/
+namespace GraafVerif.Driver.H06
+open GraafVerif GraafVerif.Driver GraafVerif.Dfs
+
+def vDist (items : List (Nat × Nat)) : V := .l (items.map (fun x => .l [V.ofNat x.1, V.ofNat x.2]))
+def vPred (items : List (Nat × Option Nat)) : V := .l (items.map (fun x => .l [V.ofOptNat x.2, V.ofNat x.1]))
+def vTree (t : List (Option Nat)) : V := .l (t.map V.ofOptNat)
+
+def orPanic {α : Type} (o : Out α) (v : V) : V := if o.ending == .panic then .a "panic" else v
+
+/-- `none` = that call panicked. -/
+def optPanic {α : Type} (f : V → Option α) (v : V) : Option (Option α) :=
+  if v == V.a "panic" then some none else (f v).map some
+
+/-- Naive reachability oracle (closure iteration over a Boolean array, at most `n` rounds, stops
+when a round adds nothing).  Same idea as `reachSetB` of `Spec/Graph.lean`, on an `Array` because
+the list version costs `n² · arcs` on the large dense cases. -/
+def reachArr (g : Graph) (S : List Nat) : Array Bool := Id.run do
+  let mut vis : Array Bool := Array.replicate g.n false
+  for s in S do
+    if s < vis.size then vis := vis.set! s true
+  for _ in [0:g.n] do
+    let mut changed := false
+    for u in [0:g.n] do
+      if vis[u]! then
+        for v in g.out u do
+          if v < vis.size && !vis[v]! then
+            vis := vis.set! v true
+            changed := true
+    if !changed then break
+  return vis
+
+/-- First reachable vertex that `xs` lacks, or first vertex of `xs` that is not reachable. -/
+def exactErr (g : Graph) (reach : Array Bool) (xs : List Nat) : Option String :=
+  match xs.find? (fun v => !(reach[v]?).getD false) with
+  | some v => some s!"vertex {v} yielded but not reachable (or out of range)"
+  | none =>
+    match (List.range g.n).find? (fun v => (reach[v]?).getD false && !xs.contains v) with
+    | some v => some s!"reachable vertex {v} never yielded"
+    | none => none
+
+inductive Judge where
+  | ok
+  | incomplete (why : String)   -- every step valid, but reachable vertices are missing
+  | bad (why : String)          -- anything else
+
+/-- The oracle on one vertex sequence with optional annotations to compare. -/
+def judgeSeq (g : Graph) (S : List Nat) (reach : Array Bool) (what : String) (xs : List Nat)
+    (depths : Option (List Nat)) (preds : Option (List (Option Nat))) : Judge × Option (List Ann) :=
+  match annotate g S xs with
+  | none =>
+    -- locate the first bad step for the message
+    let k := ((List.range (xs.length + 1)).find? (fun k => (annotate g S (xs.take k)).isNone)).getD 0
+    (.bad s!"{what}: item {k} (vertex {(xs[k-1]?).getD 0}) is not a valid depth-first step", none)
+  | some ann =>
+    let dOK := match depths with | none => true | some ds => ds == ann.map (·.2.2)
+    let pOK := match preds with | none => true | some ps => ps == ann.map (·.2.1)
+    if !dOK then (.bad s!"{what}: reported depths differ from the search-tree depths {ann.map (·.2.2)}", some ann)
+    else if !pOK then (.bad s!"{what}: reported predecessors differ from the search-tree parents", some ann)
+    else match exactErr g reach xs with
+      | none => (.ok, some ann)
+      | some why =>
+        if why.startsWith "reachable" then (.incomplete s!"{what}: {why} ({xs.length} yielded)", some ann)
+        else (.bad s!"{what}: {why}", some ann)
+
+def isStrictPrefix {α : Type} [BEq α] (xs ys : List α) : Bool := xs.length < ys.length && ys.take xs.length == xs
+
+inductive Kind where
+  | iter | dist | pred
+  deriving BEq
+
+/-- One iterator of one case. `observed` is what the real code returned. -/
+def run (kind : Kind) (d : GDesc) (S : List Nat) (fam : String) (observed : List V) : Option Verdict := do
+  let g := d.graph
+  -- model of TODAY's code and of the corrected variant, as (output values, vertex sequence, items as values, ending)
+  let fF := fuelFixed g S
+  let (model, mEnd, fItems, fEnd, kStale) : List V × Ending × List V × Ending × Option Nat :=
+    match kind with
+    | .iter =>
+      let m := dfs g S; let f := dfsFixed g S
+      ([orPanic m (V.ofNats m.verts)], m.ending, f.verts.map V.ofNat, f.ending, staleAt g childU fF (new g S ()))
+    | .dist =>
+      let m := dfsDist g S; let f := dfsDistFixed g S
+      ([orPanic m (vDist m.items)], m.ending, (vDist f.items).list?.getD [], f.ending, staleAt g childD fF (new g S 0))
+    | .pred =>
+      let m := dfsPred g S; let f := dfsPredFixed g S
+      ([orPanic m (vPred m.items), orPanic m (vTree (predFold g.n m.items))], m.ending,
+        (vPred f.items).list?.getD [], f.ending, staleAt g childP fF (new g S none))
+  let distinct := S.eraseDups.length == S.length
+  let applicable := S.all (· < g.n) && distinct && d.arcs.all (fun a => a.1 < g.n && a.2 < g.n)
+  let staleTag := if mEnd == .stale then "stale-pop" else if mEnd == .done then "no-stale-pop" else "model-panic"
+  let tags := [ "repr-" ++ d.repr, sizeTag g.n, "fam-" ++ (fam.splitOn ":").headD "none",
+                (if S.length == 0 then "src0" else if S.length == 1 then "src1" else "src>1"), staleTag ]
+  if !applicable then
+    -- outside the property (C13 owns out-of-range arguments): correspondence only
+    pure (classify observed model none (nt := false) ("not-applicable" :: tags))
+  else
+  -- parse the observation: vertex sequence, optional depths / preds, optional tree, items as values
+  let parsed : Option (Option (List Nat × Option (List Nat) × Option (List (Option Nat)) × Option (List (Option Nat)) × List V)) :=
+    match kind, observed with
+    | .iter, [a] => do
+      let r ← optPanic (V.listOf? V.nat?) a
+      pure (r.map (fun xs => (xs, none, none, none, a.list?.getD [])))
+    | .dist, [a] => do
+      let r ← optPanic (V.listOf? (V.pair? V.nat? V.nat?)) a
+      pure (r.map (fun ds => (ds.map (·.1), some (ds.map (·.2)), none, none, a.list?.getD [])))
+    | .pred, [a, t] => do
+      let r ← optPanic (V.listOf? (V.pair? (V.opt? V.nat?) V.nat?)) a
+      let rt ← optPanic (V.listOf? (V.opt? V.nat?)) t
+      pure (match r, rt with
+        | some ps, some tree => some (ps.map (·.2), none, some (ps.map (·.1)), some tree, a.list?.getD [])
+        | _, _ => none)
+    -- the whole evaluation panicked (building the digraph): `=> panic`
+    | .pred, [a] => if a == V.a "panic" then some none else none
+    | _, _ => none
+  let parsed ← parsed
+  match parsed with
+  | none =>
+    pure { status := "PROPFAIL", nontrivial := true, tags := "res-panic" :: tags,
+           detail := "the search panicked on a digraph with in-range arcs and in-range sources" }
+  | some (xs, depths, preds, tree, obsItems) =>
+    let nt := xs.length ≥ 2
+    let what := match kind with | .iter => "Dfs" | .dist => "DfsDist" | .pred => "DfsPred"
+    let reach := reachArr g S
+    let (j, ann) := judgeSeq g S reach what xs depths preds
+    let jt : Judge := match ann, tree with
+      | some ann, some tree =>
+        if tree == forestOf g.n ann then .ok else .bad "predecessors() is not the forest of the DfsPred search"
+      | _, _ => .ok
+    match j, jt with
+    | .bad w, _ => pure { status := "PROPFAIL", nontrivial := nt, tags := "res-bad" :: tags, detail := w }
+    | _, .bad w => pure { status := "PROPFAIL", nontrivial := nt, tags := "res-bad" :: tags, detail := w }
+    | .ok, _ =>
+      let extra := if observed != model && obsItems == fItems then ["impl-eq-corrected-variant"] else []
+      pure (classify observed model none nt ("res-complete" :: extra ++ tags))
+    | .incomplete w, _ =>
+      -- signature of the known finding, decided mechanically
+      let sig :=
+        observed == model && mEnd == .stale && fEnd == .done &&
+        isStrictPrefix obsItems fItems && kStale == some obsItems.length
+      if sig then pure (known "early-stop-on-stale-pop" w nt ("res-incomplete" :: tags))
+      else pure { status := "PROPFAIL", nontrivial := nt, tags := "res-incomplete" :: tags, detail := w }
+
+def handler (kind : Kind) : Handler := fun _ args obs => do
+  let (desc, src, fam) ← match args with
+    | [desc, src] => some (desc, src, "none")
+    | [desc, src, .a fam] => some (desc, src, fam)
+    | _ => none
+  let d ← GDesc.parse desc
+  let S ← V.listOf? V.nat? src
+  -- outside the protocol's domain (the harness cannot even build these: graaf panics on `empty(0)`
+  -- and on self-loops; non-contiguous `am` is not C06's vertex set): BADLINE, never a verdict
+  if d.repr == "am" && d.verts != List.range d.order then none
+  else if d.order == 0 || d.arcs.any (fun a => a.1 == a.2) then none
+  else run kind d S fam obs
+
+def handlers : List (String × Handler) :=
+  [("dfs_iter", handler .iter), ("dfs_dist", handler .dist), ("dfs_pred", handler .pred)]
 
 end GraafVerif.Driver.H06
